@@ -84,6 +84,9 @@ def run(tier):
             scen.append({"mode": "measure", "what": what, "rates": [r], "src": "grid"})
         for r1, r2 in ((8, 20), (40, 10), (10, 8)) + (((20, 40), (20, 8)) if what == "echo" else ()):
             scen.append({"mode": "measure", "what": what, "rates": [r1, r2], "switch_ms": 1000, "src": "grid-change"})
+    # a sound whose own sample rate is far above the device's (12, 24 and 9.6 source frames per output frame)
+    for rr, sr in (([8], 96), ([8], 192), ([10], 96), ([8, 20], 192), ([20, 8], 96)):
+        scen.append({"mode": "measure", "what": "sound", "rates": rr, "src_rate": sr, "switch_ms": 1000, "src": "grid-fast-source"})
     # a delay time that is not a whole number of milliseconds, at audio rates and across changes (times in microseconds)
     for rr in ([8000], [4000], [8000, 4000], [4000, 8000], [2000, 8000]):
         scen.append({"mode": "measure", "what": "echo", "rates": rr, "switch_ms": 100, "unit": 1000000, "cbf": 64, "limit": 200,
